@@ -21,7 +21,31 @@ def models_of(items):
     return rd, list(hy.read_many(rd.text))
 
 
+KNOWN_TAG = "|format-spec-literal-with-close-brace"
+
+
+def spec_literal_with_close_brace(m):
+    """root cause of the recorded finding: somewhere in m a format spec has a literal part containing '}' (the reader makes
+    one only from the = syntax in a nested field whose source text contains '}'); a spec has no way to write that character"""
+    import hy.models as M
+
+    if isinstance(m, M.FComponent):
+        for part in m[1:]:
+            if isinstance(part, M.String) and "}" in part:
+                return True
+    if isinstance(m, M.Sequence):
+        return any(spec_literal_with_close_brace(x) for x in m)
+    return False
+
+
 def check_model(m, src):
+    r = check_model_(m, src)
+    if r is not None and spec_literal_with_close_brace(m):
+        return (r[0].split(":")[0] + KNOWN_TAG, r[1])
+    return r
+
+
+def check_model_(m, src):
     import hy
 
     try:
@@ -92,9 +116,15 @@ def shard(ctx):
         ctx.case(key=rd.text, nontrivial=nt, cls=sorted(rd.features) or ["plain"], sample=rd.text[:300])
         r = check_case(dict(items=items))
         if r is not None:
+            if r[0].endswith(KNOWN_TAG):
+                ctx.excluded_known += 1
             ctx.fail(dict(items=items), r[0], r[1])
 
     ctx.hyp(S["program"], one, ctx.per_shard(5000, 300000), "programs")
 
 
-MATCHERS = {}
+def _known_spec_brace(case, bucket, detail):
+    return bucket.endswith(KNOWN_TAG)
+
+
+MATCHERS = {"spec_literal_with_close_brace": _known_spec_brace}
